@@ -110,8 +110,16 @@ class CallMixin:
             params = params[1:]
         for p, a in zip(params, args):
             binds[p] = a
+        kwname = func.node.args.kwarg.arg if func.node.args.kwarg is not None else None
+        all_params = set(func.params) | {a_.arg for a_ in func.node.args.kwonlyargs}
+        extra_kw = []
         for k, v in kw.items():
-            binds[k] = v
+            if kwname is not None and k not in all_params:
+                extra_kw.append((("const", k), v))        # **fields takes the keywords no parameter claims, in call order
+            else:
+                binds[k] = v
+        if kwname is not None:
+            binds[kwname] = ("dict", tuple(extra_kw))
         va = func.node.args.vararg
         if va is not None:
             # *rest takes the surplus positional arguments, as a tuple of known length
@@ -187,6 +195,16 @@ class CallMixin:
                 yield from self.inline(func, args[0], args[1:], kw, st, fx, node)
             else:
                 yield from self.inline(func, None, args, kw, st, fx, node, bound=False)
+            return
+        if k == "methodcaller":
+            # operator.methodcaller('name', *a)(obj)  ==  obj.name(*a)
+            if len(args) != 1:
+                raise AnalysisError("methodcaller call at %s:%d not handled" % (fx.func.file, getattr(node, "lineno", 0)))
+            for r, m, s2 in self.get_attr(args[0], f[1], st, fx, node):
+                if r == "raise":
+                    yield r, m, s2
+                else:
+                    yield from self.call(m, list(f[2]), {}, s2, fx, node)
             return
         if k == "attrgetter":
             if len(args) != 1:
@@ -436,6 +454,9 @@ class CallMixin:
         if tail[-1] == "attrgetter" and args and all(is_const(a) and isinstance(a[1], str) for a in args):
             yield "ok", ("attrgetter", tuple(a[1] for a in args)), st
             return
+        if tail[-1] == "methodcaller" and args and is_const(args[0]) and isinstance(args[0][1], str):
+            yield "ok", ("methodcaller", args[0][1], tuple(args[1:])), st
+            return
         if dotted.endswith("defer.fail") or tail[-1] == "fail" and "defer" in dotted:
             d = ("dfr", st.uid(), "fail")
             self.emit(st, fx, "DEFNEW", node, dfr=d, how="fail", arg=args[0] if args else NONE)
@@ -480,6 +501,24 @@ class CallMixin:
     # ---- attribute calls on non-repository receivers ---------------------------
     def call_attr(self, f, args, kw, st, fx, node):
         recv, name = f[1], f[2]
+        # a dict of known structure: its views are displays of known length
+        if isinstance(recv, tuple) and recv[:1] == ("dict",) and len(recv) == 2 and not kw:
+            if name == "items" and not args:
+                yield "ok", ("tuple", tuple(("tuple", (k, v)) for k, v in recv[1])), st
+                return
+            if name == "keys" and not args:
+                yield "ok", ("tuple", tuple(k for k, v in recv[1])), st
+                return
+            if name == "values" and not args:
+                yield "ok", ("tuple", tuple(v for k, v in recv[1])), st
+                return
+            if name == "get" and args and is_const(args[0]):
+                for k, v in recv[1]:
+                    if k == args[0]:
+                        yield "ok", v, st
+                        return
+                yield "ok", (args[1] if len(args) > 1 else NONE), st
+                return
         # transport
         if recv == TRANSPORT:
             if name == "write":
